@@ -27,6 +27,7 @@ N = 5
 SCOPES = ["data", "builtin", "locals", "globals", "extra"]
 BASE = {"data": 2.0, "builtin": 3.0, "locals": 5.0, "globals": 7.0, "extra": 11.0}
 DEPTH = 4
+NONE_MARK = -7.0  # what probe() returns for None: a name bound to None is bound
 
 SRC = """
 def level{i}(formula, data, env, extra, localvals):
@@ -35,9 +36,11 @@ def level{i}(formula, data, env, extra, localvals):
 """
 
 
-def probe(v):
+def probe(v=None):
     if isinstance(v, (pd.Series, np.ndarray)):
         return np.asarray(v, dtype=float)
+    if v is None:
+        return np.ones(N) * NONE_MARK
     return np.ones(N) * float(v)
 
 
@@ -127,6 +130,67 @@ def expected(role, subset, env):
     return (np.arange(N, dtype=float) + 1) * (v + {"dotted2": 0.5, "dotted3": 0.25}.get(role, 0.0))
 
 
+def judge_special(ctx, case):
+    from formulae import design_matrices
+
+    kind = case["kind"]
+    ctx.count(core.canon(case), True, ["special:" + kind], stratum="special")
+    data = pd.DataFrame({"y": np.arange(N, dtype=float), "x": np.arange(N, dtype=float) + 1})
+    g = {"design_matrices": design_matrices, "np": np}
+    extra = {"probe": probe}
+    local_line = "pass"
+    if kind == "none_value":
+        # the first defining scope binds None, a later one a number: None is what the call must receive
+        first, later = case["first"], case["later"]
+        formula = "y ~ 0 + probe(opt)"
+        for scope, val in ((first, None), (later, 5.0)):
+            if scope == "locals":
+                local_line = "opt = localval"
+                localval = val
+            elif scope == "globals":
+                g["opt"] = val
+            else:
+                extra["opt"] = val
+        if "locals" not in (first, later):
+            localval = None
+        want = np.ones(N) * NONE_MARK
+    elif kind == "encoding_named_column":
+        name = case["name"]
+        data[name] = 2.5
+        if case["also_extra"]:
+            extra[name] = 11.0
+        formula = f"y ~ 0 + probe({name})" if not case["keyword"] else f"y ~ 0 + probe(v={name})"
+        localval = None
+        want = np.ones(N) * 2.5
+    else:  # response side
+        role, subset = case["role"], case["subset"]
+        val = {"locals": 5.0, "globals": 7.0, "extra": 11.0}
+        first = [sc for sc in ("locals", "globals", "extra") if sc in subset][0]
+        localval = None
+        for sc in subset:
+            obj = val[sc] if role == "arg" else (lambda v: (lambda a: np.asarray(a, dtype=float) * v))(val[sc])
+            if sc == "locals":
+                local_line = "zeta = localval"
+                localval = obj
+            elif sc == "globals":
+                g["zeta"] = obj
+            else:
+                extra["zeta"] = obj
+        formula = "probe(zeta) ~ 1" if role == "arg" else "zeta(x) ~ 1"
+        want = np.ones(N) * val[first] if role == "arg" else data["x"].to_numpy() * val[first]
+    exec(f"def caller(formula, data, extra, localval):\n    {local_line}\n    return design_matrices(formula, data, extra_namespace=extra)\n", g)  # pylint: disable=exec-used
+    try:
+        with core.Guard():
+            dm = g["caller"](formula, data, extra, localval)
+        m = dm.response if kind == "response_side" else dm.common
+        got = np.asarray(m.design_matrix, dtype=float).reshape(N, -1)[:, 0]
+    except Exception as e:  # pylint: disable=broad-except
+        ctx.fail("resolution", case, f"{formula!r} ({kind}: {case}) raised {type(e).__name__}: {e}", kind + ":" + core.exc_key(e))
+        return
+    if not np.allclose(got, want):
+        ctx.fail("resolution", case, f"{formula!r} ({kind}: {case}): the call received {got[0]} instead of {want[0]}", kind)
+
+
 SHADOWED = {"I": "y ~ 0 + I(x)", "offset": "y ~ 0 + offset(x)", "scale": "y ~ 0 + scale(x)", "center": "y ~ 0 + center(x)", "C": "y ~ 0 + C(k)"}
 
 
@@ -177,6 +241,9 @@ def judge(ctx, case):
         return
     if case.get("kind") == "shadow":
         judge_shadow(ctx, case)
+        return
+    if case.get("kind") in ("none_value", "encoding_named_column", "response_side"):
+        judge_special(ctx, case)
         return
     items = [(r, n, tuple(s)) for r, n, s in case["items"]]
     env = case["env"]
@@ -247,6 +314,16 @@ def enum_cases():
         for subset in _subsets(["builtin", "locals", "globals", "extra"]):
             yield {"items": [["callee", name, list(subset)]], "env": 0}
         yield {"items": [["dotted1", name, []]], "env": 1}
+    for first, later in (("locals", "globals"), ("locals", "extra"), ("globals", "extra")):
+        yield {"kind": "none_value", "first": first, "later": later}
+    for name in ("Sum", "Treatment"):
+        for also_extra in (False, True):
+            for keyword in (False, True):
+                yield {"kind": "encoding_named_column", "name": name, "also_extra": also_extra, "keyword": keyword}
+    for role in ("arg", "callee"):
+        for subset in _subsets(["locals", "globals", "extra"]):
+            if subset:
+                yield {"kind": "response_side", "role": role, "subset": list(subset)}
     for name in SHADOWED:
         for subset in _subsets(["locals", "globals", "extra"]):
             if subset:
